@@ -118,7 +118,7 @@ def check_concrete(contract, cfg, pyfn, args, kwargs, wrap_hook=None):
         if rej:
             viol.append({'label': 'raises_iff:not-rejected-when-returning', 'detail': 'returned normally on an input the contract requires to be rejected'})
         else:
-            rw = wrap(outcome[1], 'result')
+            rw = contract.wrap_result(outcome[1]) if hasattr(contract, 'wrap_result') else wrap(outcome[1], 'result')
             spec = contract.result(a, cfg)
             clauses = []
             if spec is not NotImplemented:
@@ -199,7 +199,9 @@ def eval_int(model, t, default=0):
             return default
 
 
-def concretize_tensor(model, t, dtype=torch.int8, max_numel=4096):
+def concretize_tensor(model, t, dtype=None, max_numel=4096):
+    if dtype is None:
+        dtype = {'real': torch.float64, 'bool': torch.bool}.get(t.kind, torch.int64)
     shape = [eval_int(model, d) for d in t.shape]
     n = 1
     for d in shape:
@@ -222,6 +224,8 @@ def concretize_tensor(model, t, dtype=torch.int8, max_numel=4096):
                 except Exception:
                     v = 0
         out[idx] = v
+    if t.kind == 'int' and out.numel() and int(out.abs().max()) <= 127:
+        out = out.to(torch.int8)
     return out
 
 
